@@ -208,6 +208,11 @@ impl SequenceMaterializer {
             if matches!(field.as_str(), "context_id" | "timestamp" | "event_type") {
                 continue;
             }
+            // NULL in a string column (get_str_at would yield "")
+            if column_values.is_null_at(row_idx) {
+                builder.add_field_null(field);
+                continue;
+            }
 
             // Extract value based on column type
             if !column_values.is_typed() {
